@@ -9,7 +9,13 @@ Two observation levels:
   recording estimators (pre-trained, one per fold, or one estimator trained per fold);
   fold membership is recovered from the rows each fold's estimator was asked to score and
   the returned scores, restricted to each fold, are compared with the model op `predict`
-  and the per-fold spec op `predspec`.
+  and the per-fold spec op `predspec`;
+* the gate of brew.py:461-470: every fold model gets its own estimator kind (decision function,
+  decision function + predict_proba, predict_proba only in three output shapes), also mixed
+  within one run; folds whose estimator exposes a decision function are held to the spec, the
+  others (the property promises nothing) are compared with the model op `predictdf` only;
+* several collections: the whole run (all collections, or the prefix up to the first one that
+  cannot be scored) is compared with the model op `predictcolls`.
 """
 from __future__ import annotations
 
@@ -37,7 +43,9 @@ RULE = (
     "function cases = (score vector from a small pool so ties are frequent, target flags, direction, eval FDR, "
     "dtype, entry point calibrate_scores / OnDiskPsmDataset.calibrate_scores on Parquet or TSV); brew cases = "
     "(rows with spectrum groups, folds 2..6, per-fold integer decision tables or a per-fold trained affine "
-    "decision function, eval FDR, prediction chunk size, workers, 1-2 collections); distinct = distinct (rank "
+    "decision function, eval FDR, prediction chunk size incl. 1-3, workers, 1-2 collections, one estimator kind per "
+    "fold model: decision_function / both / predict_proba-only in 3 shapes, uniform or mixed, label encodings "
+    "bool / +-1 / 0-1); distinct = distinct (rank "
     "pattern of scores, labels, direction, threshold) resp. (fold pattern, per-fold rank patterns, labels, "
     "threshold); non-trivial = some target accepted, at least one decoy, at least two distinct scores, or an "
     "error case with at least one target; thorough adds the exhaustive sweep over all score vectors over 3 "
@@ -224,7 +232,7 @@ def gen_case(rng, nmax=40):
     if entry != "func":
         sdt = "float64"
     return dict(scores=scores, labels=labels, desc=desc, thr=thr or pick_thr(rng, sum(labels)), sdtype=sdt, entry=entry, pat=pat,
-                lkind=rng.choice(["bool", "pm1", "pm1"]))
+                lkind=rng.choice(["bool", "pm1", "pm1", "01"]))
 
 
 def jsonable(c):
@@ -279,6 +287,8 @@ def ondisk(path, df, features, spectra):
 def label_column(labels, lkind):
     if lkind == "bool":
         return np.array(labels, dtype=bool)
+    if lkind == "01":  # utils.convert_targets_column: target iff the value is 1; -1 and 0 are both decoys
+        return np.array([1 if b else 0 for b in labels], dtype=np.int64)
     return np.array([1 if b else -1 for b in labels], dtype=np.int64)
 
 
@@ -351,6 +361,8 @@ def eval_cases(chk, cases, tmp):
         chk.count("f.pattern", c["pat"])
         chk.count("f.thr", str(c["thr"]) if c["thr"].denominator < 100 else f"{float(c['thr']):g}")
         chk.count("f.ties", len(set(c["scores"])) < n)
+        if c["entry"].startswith("ondisk"):
+            chk.count("f.labels", c["lkind"])
         cls = ("error:no-accepted-target" if t is None else "nan:no-decoy" if d is None else
                "in-quantifier:t>d" if t > d else "outside:t=d" if t == d else "outside:t<d")
         chk.count("f.class", cls)
@@ -416,13 +428,23 @@ def exhaustive(chk, nmax, nvals, tmp):
 # ----------------------------------------------------------------------------
 # brew level
 # ----------------------------------------------------------------------------
-def recorder_class(both=False):
+DF_KINDS = ("df", "both")
+PROBA_KINDS = ("proba1", "proba2", "probacol")
+EST_KINDS = DF_KINDS + PROBA_KINDS
+
+
+def has_df(kind):
+    """does an estimator of this kind expose `decision_function` (the test of brew.py:462)?"""
+    return kind in DF_KINDS
+
+
+def recorder_class(kind="df"):
     from sklearn.base import BaseEstimator
 
-    class Recorder(BaseEstimator):
+    class Base(BaseEstimator):
         """records the rows it is asked to score; column 1 of the features is the row id.
         `table` (row id -> raw score) is used when given (pre-trained mode); otherwise the
-        decision function is `a * feature0 + b` with (a, b) derived from the training rows."""
+        raw output is `a * feature0 + b` with (a, b) derived from the training rows."""
 
         def __init__(self, table=None):
             self.table = table
@@ -440,12 +462,16 @@ def recorder_class(both=False):
             self._log().append(("fit", None))
             return self
 
-        def decision_function(self, X):
+        def _raw(self, X):
             ids = [int(v) for v in X[:, 1]]
             self._log().append(("dec", ids))
             if self.table is not None:
                 return np.array([self.table[i] for i in ids], dtype=float)
             return self.a_ * X[:, 0] + self.b_
+
+    class Recorder(Base):
+        def decision_function(self, X):
+            return self._raw(X)
 
     class RecorderBoth(Recorder):
         """also exposes predict_proba (like LogisticRegression): the decision function is still what
@@ -455,7 +481,34 @@ def recorder_class(both=False):
             p = 1.0 / (1.0 + np.exp(np.asarray(X[:, 0], dtype=float) % 3 - 1))
             return np.column_stack([1 - p, p])
 
-    return RecorderBoth if both else Recorder
+    class RecorderProba1(Base):
+        """no decision function: brew must return this fold's scores uncalibrated (1-d predict_proba)"""
+
+        def predict_proba(self, X):
+            return self._raw(X)
+
+    class RecorderProba2(Base):
+        """sklearn layout: two columns, the second one is the score"""
+
+        def predict_proba(self, X):
+            r = np.asarray(self._raw(X), dtype=float)
+            return np.column_stack([-r, r])
+
+    class RecorderProbaCol(Base):
+        """skorch layout: a single column"""
+
+        def predict_proba(self, X):
+            return np.asarray(self._raw(X), dtype=float).reshape(-1, 1)
+
+    return dict(df=Recorder, both=RecorderBoth, proba1=RecorderProba1, proba2=RecorderProba2,
+                probacol=RecorderProbaCol)[kind]
+
+
+def case_ests(bc):
+    """estimator kind per fold model (older corpus entries only carry `both`)"""
+    if bc.get("ests"):
+        return list(bc["ests"])
+    return ["both" if bc.get("both") else "df"] * bc["k"]
 
 
 def gen_brew_case(rng, small=False):
@@ -507,13 +560,32 @@ def gen_brew_case(rng, small=False):
                 tab = None
             tables.append(tab)
         colls.append(dict(n=n, scan=scan, labels=labels, feat=feat, tables=tables, base=base,
-                          lkind=rng.choice(["bool", "pm1"])))
+                          lkind=rng.choice(["bool", "pm1", "01"])))
         base += 1000
     n_all = min(c["n"] for c in colls)
     chunk = rng.choice([700000, 700000, n_all, max(1, n_all // 2), max(1, n_all // 3), 7, 5])
+    workers = rng.choice([1, 1, 1, 2])
+    if rng.random() < 0.12:
+        # tiny chunks: (almost) every chunk lacks rows of most folds; at most ~12 chunks per collection and one
+        # worker, because every chunk costs one joblib dispatch
+        chunk, workers = max(rng.choice([1, 1, 2, 3]), -(-n_all // 12)), 1
+    both = rng.random() < 0.3
+    # one estimator kind per fold model (brew.py:461-470 tests every model's own estimator)
+    r = rng.random()
+    if mode == "trained":
+        # one estimator is cloned for every fold: uniform by construction
+        ests = [("both" if both else "df") if r < 0.8 else rng.choice(PROBA_KINDS)] * k
+    elif r < 0.6:
+        ests = ["both" if both else "df"] * k
+    elif r < 0.92:
+        ests = [rng.choice(EST_KINDS) for _ in range(k)]
+        ests[rng.randrange(k)] = rng.choice(DF_KINDS)
+        ests[rng.choice([i for i in range(k) if not has_df(ests[i])] or [rng.randrange(k)])] = rng.choice(PROBA_KINDS)
+    else:
+        ests = [rng.choice(PROBA_KINDS)] * k
     return dict(k=k, mode=mode, colls=colls, thr=thr,
-                chunk=chunk, workers=rng.choice([1, 1, 1, 2]), seed=rng.randrange(10 ** 6),
-                both=rng.random() < 0.3,
+                chunk=chunk, workers=workers, seed=rng.randrange(10 ** 6),
+                both=both, ests=ests,
                 train_fdr=rng.choice([0.5, 1.0]))
 
 
@@ -534,7 +606,7 @@ def run_brew(bc, tmp):
     from mokapot.model import Model
 
     brewmod = importlib.import_module("mokapot.brew")
-    Recorder = recorder_class(bc.get("both", False))
+    ests = case_ests(bc)
     k = bc["k"]
     dss, frames = [], []
     for cl in bc["colls"]:
@@ -564,14 +636,14 @@ def run_brew(bc, tmp):
             for cl in bc["colls"]:
                 for i, v in enumerate(cl["tables"][f]):
                     table[i + cl["base"]] = float(v)
-            m = Model(Recorder(table=table), scaler="as-is", override=True)
+            m = Model(recorder_class(ests[f])(table=table), scaler="as-is", override=True)
             m.is_trained = True
             m.features = ["score", "rowid"]
             m.fold = f + 1
             models.append(m)
         model_arg = models
     else:
-        model_arg = Model(Recorder(), scaler="as-is", override=True, train_fdr=bc["train_fdr"], max_iter=2,
+        model_arg = Model(recorder_class(ests[0])(), scaler="as-is", override=True, train_fdr=bc["train_fdr"], max_iter=2,
                           rng=bc["seed"])
     old = brewmod.CHUNK_SIZE_ROWS_PREDICTION
     brewmod.CHUNK_SIZE_ROWS_PREDICTION = bc["chunk"]
@@ -629,7 +701,7 @@ def brew_key(bc, folds, ci):
     for f in range(bc["k"]):
         idx = [i for i in range(cl["n"]) if folds[i] == f]
         per.append((tuple(idx), rank_pattern([cl["tables"][f][i] if cl["tables"][f] else cl["feat"][i] for i in idx])))
-    return ("b", tuple(per), tuple(cl["labels"]), str(bc["thr"]))
+    return ("b", tuple(per), tuple(cl["labels"]), str(bc["thr"]), tuple(has_df(e) for e in case_ests(bc)))
 
 
 def bjson(bc):
@@ -644,37 +716,68 @@ def bfrom_json(d):
     return bc
 
 
+def seen_prefix(bc, res):
+    """number of leading collections whose rows were all scored by some fold model (`_predict` is a
+    generator over the collections: the first failing collection stops the run, later ones are never
+    scored)"""
+    complete = [all(f is not None for f in fo) for fo in res["folds"]]
+    n = complete.index(False) if False in complete else len(complete)
+    if any(f is not None for fo in res["folds"][n:] for f in fo):
+        return None  # rows of a later collection were scored although an earlier one is incomplete
+    return n
+
+
 def eval_brew(chk, bcs, tmp):
-    results, lines, index = [], [], []
+    results, lines, index, cindex = [], [], [], {}
     for bi, bc in enumerate(bcs):
         res = run_brew(bc, tmp)
         results.append(res)
         if "folds" not in res:
             continue
+        flags = [has_df(e) for e in case_ests(bc)]
+        wire_colls = []
         for ci, cl in enumerate(bc["colls"]):
             folds, raw = res["folds"][ci], res["raw"][ci]
             if any(f is None for f in folds):
                 continue
             rows = [[f, Fraction(r), bool(l)] for f, r, l in zip(folds, raw, cl["labels"])]
             index.append((bi, ci, len(lines)))
-            lines.append(req("predict", min(bc["chunk"], 10 ** 6), bc["k"], bc["thr"], rows))
+            if all(flags):
+                lines.append(req("predict", min(bc["chunk"], 10 ** 6), bc["k"], bc["thr"], rows))
+            else:
+                lines.append(req("predictdf", min(bc["chunk"], 10 ** 6), flags, bc["thr"], rows))
             lines.append(req("predspec", bc["k"], bc["thr"], rows))
             for f in range(bc["k"]):
                 fr = [[Fraction(r), bool(l)] for ff, r, l in zip(folds, raw, cl["labels"]) if ff == f]
                 lines.append(req("qspec", True, fr) if fr else "median []")
+            wire_colls.append(rows)
+        nseen = seen_prefix(bc, res)
+        if nseen:
+            # the whole run: every collection scored so far, in the order given to brew
+            cindex[bi] = (len(lines), nseen)
+            lines.append(req("predictcolls", min(bc["chunk"], 10 ** 6), flags, bc["thr"], wire_colls[:nseen]))
     resp = common.driver_batch(lines)
     where = {(bi, ci): pos for bi, ci, pos in index}
     for bi, bc in enumerate(bcs):
         res = results[bi]
         k = bc["k"]
+        ests = case_ests(bc)
+        flags = [has_df(e) for e in ests]
         info = dict(case=bjson(bc), status=res["status"], error=res.get("error"))
         chk.count("b.mode", bc["mode"])
         chk.count("b.folds", k)
         chk.count("b.status", res["status"])
         chk.count("b.collections", len(bc["colls"]))
         chk.count("b.chunked", bc["chunk"] < min(c["n"] for c in bc["colls"]))
+        chk.count("b.chunk", bc["chunk"] if bc["chunk"] <= 7 else "n/3..n" if bc["chunk"] < 700000 else "unchunked")
         chk.count("b.workers", bc["workers"])
         chk.count("b.estimator", "decision_function+predict_proba" if bc.get("both") else "decision_function")
+        chk.count("b.gate", "every model has a decision function" if all(flags) else
+                  "no model has one" if not any(flags) else "mixed")
+        for e in ests:
+            chk.count("b.fold-estimator", e)
+        for cl in bc["colls"]:
+            chk.count("b.labels", cl["lkind"])
         chk.count("b.thr", str(bc["thr"]))
         if res["status"] == "split-raises":
             # `_split` itself fails (too few distinct spectra for the number of folds): C02's domain
@@ -711,6 +814,10 @@ def eval_brew(chk, bcs, tmp):
             chk.spec_violation("brew:fold-membership", dict(info, folds=res["folds"],
                                clause="rows scored by no fold model or by several"))
             continue
+        # the whole run against the model of `list(_predict(...))` (all collections seen, in order)
+        colls_model = None
+        if bi in cindex and cindex[bi][1] == ncoll_seen:
+            colls_model = resp[cindex[bi][0]].strip()
         if res["status"] == "empty-fold":
             # `_split` produced a fold without PSMs: np.hstack([]) raises ValueError; outside the property
             # (C02 owns the split); the model must agree that some fold is empty
@@ -719,10 +826,13 @@ def eval_brew(chk, bcs, tmp):
             sref = res["split_ref"]
             if not any(set(range(k)) - set(fo) for fo in sref):
                 chk.spec_violation("brew:unexpected-exception", dict(info, clause="ValueError although no fold is empty"))
+            elif colls_model is not None and colls_model != "reject-empty":
+                chk.corr_break("predictcolls", dict(info, folds=res["folds"], model=colls_model[:300]))
             continue
         any_noacc = False
         per_coll = []
         boundary = False
+        lacks = False
         for ci, cl in enumerate(bc["colls"][:ncoll_seen]):
             pos = where[(bi, ci)]
             model_raw = resp[pos].strip()
@@ -736,38 +846,50 @@ def eval_brew(chk, bcs, tmp):
                     qs = [a_rat(x) for x in qv]
                     if any((q_rounded(q) > float(bc["thr"])) != (q > bc["thr"]) for q, l in zip(qs, labs) if l):
                         boundary = True
-            if any(t is None for t, _, _ in spec):
+            # only a fold whose estimator exposes a decision function is calibrated and can raise
+            if any(t is None and flags[f] for f, (t, _, _) in enumerate(spec)):
                 any_noacc = True
             per_coll.append((model_raw, spec, folds, raw))
+            c_ = min(bc["chunk"], len(folds))
+            if any(set(range(k)) - set(folds[i:i + c_]) for i in range(0, len(folds), c_)):
+                lacks = True
             if res["split_ref"][ci] is not None and res["split_ref"][ci] != folds:
                 chk.corr_break("fold-membership", dict(info, recorded=folds, split=res["split_ref"][ci]))
+        chk.count("b.some-chunk-lacks-a-fold", lacks)
         if boundary:
             chk.float_boundary += 1
             chk.count("float-boundary")
             continue
-        in_q_all = all(t is not None and d is not None and t > d for _, spec, _, _ in per_coll for t, d, _ in spec)
+        in_q_all = all(t is not None and d is not None and t > d
+                       for _, spec, _, _ in per_coll for f, (t, d, _) in enumerate(spec) if flags[f])
         key = None
-        if in_q_all or any_noacc:
+        if (in_q_all and any(flags)) or any_noacc:
             key = tuple(brew_key(bc, per_coll[ci][2], ci) for ci in range(len(per_coll)))
         chk.case(None, key, sample=dict(level="brew", **info, folds=res["folds"],
                                         impl=res.get("scores"), model=[p[0][:200] for p in per_coll]))
         chk.count("b.class", "error:no-accepted-target-in-some-fold" if any_noacc else
+                  "outside:no-estimator-with-decision-function" if not any(flags) else
                   "in-quantifier" if in_q_all else "outside:t<=d-or-no-decoy-in-some-fold")
         # ---- spec -------------------------------------------------------------------------
         if any_noacc:
             # NB with several collections the first failing one stops the run
-            if res["status"] == "calib-error" and not any(t is None for t, _, _ in per_coll[-1][1]):
+            if res["status"] == "calib-error" and not any(t is None and flags[f]
+                                                          for f, (t, _, _) in enumerate(per_coll[-1][1])):
                 chk.spec_violation("brew:error-in-wrong-collection", dict(info, folds=res["folds"],
                                    clause="the run stopped in a collection whose folds all accept a target"))
             elif res["status"] != "calib-error":
                 chk.spec_violation("brew:missing-error", dict(info, folds=res["folds"], impl=res.get("scores"),
                                    clause="a fold accepts no target at test_fdr but brew returned scores"))
-            elif not all(p[0] == "reject-nopositive" for p in per_coll if any(t is None for t, _, _ in p[1])):
+            elif not all(p[0] == "reject-nopositive" for p in per_coll
+                         if any(t is None and flags[f] for f, (t, _, _) in enumerate(p[1]))):
                 chk.corr_break("predict", dict(info, model=[p[0][:200] for p in per_coll]))
+            elif colls_model is not None and colls_model != "reject-nopositive":
+                chk.corr_break("predictcolls", dict(info, folds=res["folds"], model=colls_model[:300]))
             continue
         if res["status"] == "calib-error":
             chk.spec_violation("brew:spurious-error", dict(info, folds=res["folds"],
-                               clause="every fold accepts a target at test_fdr but brew raised the calibration error"))
+                               clause="every fold whose estimator has a decision function accepts a target at "
+                                      "test_fdr but brew raised the calibration error"))
             continue
         viol = None
         for ci, (model_raw, spec, folds, raw) in enumerate(per_coll):
@@ -777,8 +899,14 @@ def eval_brew(chk, bcs, tmp):
                 break
             for f, (t, d, vals) in enumerate(spec):
                 idx = [i for i in range(len(raw)) if folds[i] == f]
-                if not (d is not None and t > d):
+                if not flags[f]:
+                    # no decision function: the property promises nothing for this fold (model comparison below)
+                    chk.count("b.fold-class", "no-decision-function:raw-scores(model-only)")
                     continue
+                if not (d is not None and t > d):
+                    chk.count("b.fold-class", "outside:t<=d-or-no-decoy")
+                    continue
+                chk.count("b.fold-class", "in-quantifier")
                 gf = [got[i] for i in idx]
                 exp = [fl(v) for v in vals]
                 if not same_list(gf, exp):
@@ -800,16 +928,41 @@ def eval_brew(chk, bcs, tmp):
             continue
         if not in_q_all:
             chk.reject("brew:outside-quantifier(t<=d or decoy-free fold)")
+        elif not any(flags):
+            chk.reject("brew:outside-quantifier(no estimator with a decision function)")
         # ---- model ------------------------------------------------------------------------
         for ci, (model_raw, spec, folds, raw) in enumerate(per_coll):
+            op = "predict" if all(flags) else "predictdf"
             if model_raw.startswith("reject"):
-                chk.corr_break("predict", dict(info, collection=ci, model=model_raw, impl=res["scores"][ci]))
+                chk.corr_break(op, dict(info, collection=ci, model=model_raw, impl=res["scores"][ci]))
                 continue
             m = dec(model_raw)
             mv = [dec_xr(x) for x in (m if isinstance(m, list) else [m])]
             if not same_list(res["scores"][ci], mv):
-                chk.corr_break("predict", dict(info, collection=ci, folds=folds, raw=raw, model=model_raw[:1000],
-                                               impl=res["scores"][ci]))
+                chk.corr_break(op, dict(info, collection=ci, folds=folds, raw=raw, model=model_raw[:1000],
+                                        impl=res["scores"][ci]))
+        # the run as a whole: one score vector per collection, in the order given
+        if colls_model is None or colls_model.startswith("reject"):
+            chk.corr_break("predictcolls", dict(info, folds=res["folds"], model=colls_model, impl=res["scores"]))
+        else:
+            mc = dec_colls(colls_model, [len(p[3]) for p in per_coll])
+            if mc is None or len(mc) != len(res["scores"]) or \
+                    not all(same_list(g, [dec_xr(x) for x in m]) for g, m in zip(res["scores"], mc)):
+                chk.corr_break("predictcolls", dict(info, folds=res["folds"], model=colls_model[:1000],
+                                                    impl=res["scores"]))
+
+
+def dec_colls(line, sizes):
+    """`[[..] [..]]` -> list of token lists; `dec` unwraps a single top-level value, so the nesting is
+    restored from the known number of collections"""
+    v = dec(line)
+    if not isinstance(v, list):
+        return None
+    if len(sizes) == 1 and (not v or not isinstance(v[0], list)):
+        v = [v]
+    if len(v) != len(sizes):
+        return None
+    return [x if isinstance(x, list) else [x] for x in v]
 
 
 # ----------------------------------------------------------------------------
@@ -892,6 +1045,11 @@ def main(chk, args):
         "iter_batches yields consecutive batches of the requested size",
         "inputs outside the property's quantifier (t <= d, decoy-free fold: inf/nan/order-reversed scores, no "
         "exception) are compared with the model only and tallied under rejected_inputs",
+        "a fold whose estimator exposes no decision_function is outside the property's quantifier: its scores "
+        "(raw, uncalibrated) are compared with the model op predictdf only; every other fold of the same run is "
+        "held to the spec (formula, order, anchors, explicit error) with its own rows",
+        "whether an estimator 'exposes a decision function' is what brew.py:462 tests: attribute access on "
+        "Model.estimator (the recording estimators are plain classes with or without that method)",
     ]
     chk.finish(build, RULE, search=search, lc=lc,
                trusted_extra=["numpy min/median/mask indexing/hstack/argsort, pandas/pyarrow Parquet round trip, "
